@@ -245,7 +245,15 @@ def falsify_C05(ctx):
                 rels = shifted_releases(cbs, horizon - 250, rng, rng.randrange(m), rng.randint(0, 12))
             else:
                 rels = [releases_for(c["arr"], horizon - 250, rng, sync=(rep % 2 == 0)) for c in cbs]
-            done = ros_sim.simulate_executor(cbs, rels, sigma)
+            tr, pl = ([], []) if rep < 2 else (None, None)
+            done = ros_sim.simulate_executor(cbs, rels, sigma, trace=tr, polls=pl)
+            if tr is not None:
+                # Spec validation: runs of the executor model satisfy the schedule-level Spec over
+                # which `rr_singleton_sound` is stated
+                viol = ros_sim.check_polling_legal(cbs, rels, sigma, tr, pl)
+                dist["polling_spec_checked_runs"] = dist.get("polling_spec_checked_runs", 0) + 1
+                if viol and len(cex) < 50:
+                    cex.append({"kind": "executor_oracle_vs_schedule_spec", "op": f"{which} {ss} {wl} 1 0 500", "violated_clauses": viol})
             nontrivial.add((wl, rep))
             for i in range(m):
                 worst = max([comp - rel for rel, comp in done[i] if rel < horizon - 350], default=0)
